@@ -8,7 +8,7 @@ use ark_crypto_primitives::{
     merkle_tree::{ByteDigestConverter, Config},
 };
 use ark_ed_on_bls12_381::{EdwardsAffine, Fr as EdFr};
-use ark_ff::PrimeField;
+use ark_ff::{PrimeField, Zero};
 use ark_poly::{
     multivariate::{SparsePolynomial, SparseTerm, Term},
     univariate::DensePolynomial,
@@ -189,6 +189,57 @@ impl Adapter for IpaA {
         }
         Some(LabeledCommitment::new(cm.label().clone(), c, b))
     }
+    fn mutate_proof(kind: &str, pf: &Pf<Self>, args: &[String]) -> Option<Pf<Self>> {
+        use ark_ec::AffineRepr;
+        let mut p = pf.clone();
+        let j: usize = args.get(0).and_then(|x| x.parse().ok()).unwrap_or(0);
+        match kind {
+            "l_tamper" => { if p.l_vec.is_empty() { return None; } let k = j % p.l_vec.len(); p.l_vec[k] = Self::rnd_point(&args[1]); }
+            "r_tamper" => { if p.r_vec.is_empty() { return None; } let k = j % p.r_vec.len(); p.r_vec[k] = Self::rnd_point(&args[1]); }
+            "final_key" => { p.final_comm_key = Self::rnd_point(&args[1]); }
+            "c_tamper" => { p.c += EdFr::from(1u64); }
+            "drop_round" => { if p.l_vec.is_empty() { return None; } p.l_vec.pop(); p.r_vec.pop(); }
+            "extra_round_identity" => { p.l_vec.push(EdwardsAffine::zero()); p.r_vec.push(EdwardsAffine::zero()); }
+            "extra_round_random" => { p.l_vec.push(Self::rnd_point(&args[1])); p.r_vec.push(Self::rnd_point(&args[1])); }
+            "unbalanced" => { p.l_vec.push(Self::rnd_point(&args[1])); }
+            "rand_tamper" => { match p.rand { Some(r) => p.rand = Some(r + EdFr::from(1u64)), None => return None } }
+            "hiding_comm_tamper" => { match p.hiding_comm { Some(_) => p.hiding_comm = Some(Self::rnd_point(&args[1])), None => return None } }
+            "hiding_drop" => { if p.hiding_comm.is_none() { return None; } p.hiding_comm = None; p.rand = None; }
+            _ => return None,
+        }
+        Some(p)
+    }
+    /// "IPA rounds log_d + k with padded/identity generators" + "prover run on (q, state_q) against commitment(p)"
+    fn attack(kind: &str, ck: &CK<Self>, polys: &[&ark_poly_commit::LabeledPolynomial<EdFr, Self::P>],
+              comms: &[&LabeledCommitment<Cm<Self>>], states: &[&St<Self>], pt: &EdFr,
+              sponge: &mut crate::sponge::RecSponge<EdFr>, _args: &[String]) -> Option<(Pf<Self>, Vec<EdFr>)> {
+        use ark_ec::AffineRepr;
+        use ark_ff::Field;
+        use ark_poly::Polynomial;
+        if kind != "padded_key" || polys.len() != 1 || polys[0].degree_bound().is_some() || pt.is_zero() { return None; }
+        let d = ck.comm_key.len() - 1;
+        let mut padded = ck.clone();
+        padded.comm_key.extend(core::iter::repeat(EdwardsAffine::zero()).take(d + 1));
+        let p = polys[0].polynomial();
+        let truth = p.evaluate(pt);
+        let fake = truth + EdFr::from(12345u64);
+        let a = (fake - truth) * pt.pow([(d + 1) as u64]).inverse().unwrap();
+        let mut q = p.coeffs.clone();
+        q.resize(d + 1, EdFr::from(0u64));
+        q.push(a);
+        let lq = ark_poly_commit::LabeledPolynomial::new(polys[0].label().clone(), DensePolynomial::from_coefficients_vec(q), None, polys[0].hiding_bound());
+        let mut rng = CountingRng::new(99);
+        let pf = IpaPC::open(&padded, [&lq], comms.iter().cloned(), pt, sponge, states.iter().cloned(), Some(&mut rng)).ok()?;
+        Some((pf, vec![fake]))
+    }
+}
+
+impl IpaA {
+    fn rnd_point(tag: &str) -> EdwardsAffine {
+        use ark_ec::{AffineRepr, CurveGroup};
+        let k: EdFr = f_from_str(tag);
+        (EdwardsAffine::generator() * (k + EdFr::from(7u64))).into_affine()
+    }
 }
 
 pub struct Pst13A;
@@ -212,6 +263,20 @@ impl Adapter for Pst13A {
         MVPoly::from_coefficients_vec(nv, terms)
     }
     fn make_point(toks: &[String]) -> Vec<Fr> { fs_from_strs(toks) }
+    fn mutate_proof(kind: &str, pf: &Pf<Self>, args: &[String]) -> Option<Pf<Self>> {
+        let mut p = pf.clone();
+        let j: usize = args.get(0).and_then(|x| x.parse().ok()).unwrap_or(0);
+        match kind {
+            "w_tamper" => { if p.w.is_empty() { return None; } let k = j % p.w.len(); p.w[k] = exp_g::<ark_bls12_381::G1Affine>(f_from_str(&args[1])); }
+            "w_shorter" => { if p.w.is_empty() { return None; } p.w.pop(); }
+            "w_longer" => { p.w.push(exp_g::<ark_bls12_381::G1Affine>(f_from_str(&args[1]))); }
+            "w_swap" => { if p.w.len() < 2 { return None; } let k = j % (p.w.len() - 1); if p.w[k] == p.w[k + 1] { return None; } p.w.swap(k, k + 1); }
+            "rv" => { match p.random_v { Some(r) => p.random_v = Some(r + Fr::from(1u64)), None => return None } }
+            "rv_drop" => { if p.random_v.is_none() { return None; } p.random_v = None; }
+            _ => return None,
+        }
+        Some(p)
+    }
 }
 
 pub struct HyraxA;
@@ -221,6 +286,67 @@ impl Adapter for HyraxA {
         DenseMultilinearExtension::from_evaluations_vec(nv.expect("num_vars"), fs_from_strs(toks))
     }
     fn make_point(toks: &[String]) -> Vec<EdFr> { fs_from_strs(toks) }
+    fn mutate_proof(kind: &str, pf: &Pf<Self>, args: &[String]) -> Option<Pf<Self>> {
+        // Pf = Vec<HyraxProof>: one proof per polynomial opened at the point
+        let mut v = pf.clone();
+        if v.is_empty() { return if kind == "list_extend" { None } else { None }; }
+        let j: usize = args.get(0).and_then(|x| x.parse().ok()).unwrap_or(0);
+        let which = j % v.len();
+        let one = EdFr::from(1u64);
+        match kind {
+            "com_eval" => v[which].com_eval = IpaA::rnd_point(&args[1]),
+            "com_d" => v[which].com_d = IpaA::rnd_point(&args[1]),
+            "com_b" => v[which].com_b = IpaA::rnd_point(&args[1]),
+            "z_tamper" => { if v[which].z.is_empty() { return None; } let k = j % v[which].z.len(); v[which].z[k] += one; }
+            "z_stretch" => { v[which].z.push(EdFr::from(0u64)); }
+            "z_shorten" => { if v[which].z.is_empty() { return None; } v[which].z.pop(); }
+            "z_d" => v[which].z_d += one,
+            "z_b" => v[which].z_b += one,
+            "r_eval" => v[which].r_eval += one,
+            "list_drop" => { v.pop(); }
+            "list_extend" => { let l = v[which].clone(); v.push(l); }
+            _ => return None,
+        }
+        Some(v)
+    }
+}
+
+/// mutations of linear-code proofs (Ligero / Brakedown share the proof type); through the verification hooks
+fn mutate_lincode_proof(kind: &str, pf: &Vec<ark_poly_commit::linear_codes::LinCodePCProof<Fr, MTConfig>>, args: &[String])
+    -> Option<Vec<ark_poly_commit::linear_codes::LinCodePCProof<Fr, MTConfig>>> {
+    use ark_poly_commit::linear_codes::verif_hooks as lh;
+    let mut v = pf.clone();
+    if v.is_empty() { return None; }
+    let j: usize = args.get(0).and_then(|x| x.parse().ok()).unwrap_or(0);
+    let k2: usize = args.get(1).and_then(|x| x.parse().ok()).unwrap_or(0);
+    let which = j % v.len();
+    let one = Fr::from(1u64);
+    if kind == "list_drop" { v.pop(); return Some(v); }
+    if kind == "list_extend" { let l = v[which].clone(); v.push(l); return Some(v); }
+    {
+        let (paths, vv, cols, wf) = lh::proof_parts_mut(&mut v[which]);
+        let nc = cols.len();
+        match kind {
+            "col_tamper" => { if nc == 0 { return None; } let c = k2 % nc; if cols[c].is_empty() { return None; } let r = j % cols[c].len(); cols[c][r] += one; }
+            "col_swap" => { if nc < 2 { return None; } let a = k2 % nc; let b = (k2 + 1 + j) % nc; if cols[a] == cols[b] { return None; } cols.swap(a, b); }
+            "path_swap" => { if paths.len() < 2 { return None; } let a = k2 % paths.len(); let b = (k2 + 1 + j) % paths.len(); if paths[a].leaf_index == paths[b].leaf_index { return None; } paths.swap(a, b); }
+            "both_swap" => { if nc < 2 { return None; } let a = k2 % nc; let b = (k2 + 1 + j) % nc; if paths[a].leaf_index == paths[b].leaf_index { return None; } cols.swap(a, b); paths.swap(a, b); }
+            "dup_col" => { if nc < 2 { return None; } let a = k2 % nc; let b = (k2 + 1 + j) % nc; if paths[a].leaf_index == paths[b].leaf_index { return None; } cols[b] = cols[a].clone(); paths[b] = paths[a].clone(); }
+            "path_index" => { if paths.is_empty() { return None; } let a = k2 % paths.len(); paths[a].leaf_index ^= 1; }
+            "path_node" => { if paths.is_empty() { return None; } let a = k2 % paths.len(); if paths[a].auth_path.is_empty() { return None; } let n = j % paths[a].auth_path.len(); paths[a].auth_path[n][0] ^= 1; }
+            "trunc_cols" => { if nc == 0 { return None; } cols.pop(); paths.pop(); }
+            "trunc_paths" => { if paths.is_empty() { return None; } paths.pop(); }
+            "extra_col" => { if nc == 0 { return None; } let c = cols[nc - 1].clone(); let p = paths[nc - 1].clone(); cols.push(c); paths.push(p); }
+            "v_tamper" => { if vv.is_empty() { return None; } let k = j % vv.len(); vv[k] += one; }
+            "v_stretch" => { let l = vv.len().max(1); for _ in 0..l * (1 + j % 3) { vv.push(Fr::from(0u64)); } }
+            "v_shorten" => { if vv.is_empty() { return None; } vv.pop(); }
+            "wf_tamper" => { match wf { Some(w) if !w.is_empty() => { let k = j % w.len(); w[k] += one; } _ => return None } }
+            "wf_drop" => { if wf.is_none() { return None; } *wf = None; }
+            "wf_stretch" => { match wf { Some(w) => { let l = w.len().max(1); for _ in 0..l { w.push(Fr::from(0u64)); } } None => return None } }
+            _ => return None,
+        }
+    }
+    Some(v)
 }
 
 pub struct LigeroUniA;
@@ -228,18 +354,21 @@ impl Adapter for LigeroUniA {
     type F = Fr; type P = UniPoly; type PC = LigeroUniPC;
     fn make_poly(toks: &[String], _nv: Option<usize>) -> UniPoly { uni_poly(toks) }
     fn make_point(toks: &[String]) -> Fr { f_from_str(&toks[0]) }
+    fn mutate_proof(kind: &str, pf: &Pf<Self>, args: &[String]) -> Option<Pf<Self>> { mutate_lincode_proof(kind, pf, args) }
 }
 pub struct LigeroMLA;
 impl Adapter for LigeroMLA {
     type F = Fr; type P = SparseMultilinearExtension<Fr>; type PC = LigeroMLPC;
     fn make_poly(toks: &[String], nv: Option<usize>) -> Self::P { sparse_ml(toks, nv) }
     fn make_point(toks: &[String]) -> Vec<Fr> { fs_from_strs(toks) }
+    fn mutate_proof(kind: &str, pf: &Pf<Self>, args: &[String]) -> Option<Pf<Self>> { mutate_lincode_proof(kind, pf, args) }
 }
 pub struct BrakedownMLA;
 impl Adapter for BrakedownMLA {
     type F = Fr; type P = SparseMultilinearExtension<Fr>; type PC = BrakedownMLPC;
     fn make_poly(toks: &[String], nv: Option<usize>) -> Self::P { sparse_ml(toks, nv) }
     fn make_point(toks: &[String]) -> Vec<Fr> { fs_from_strs(toks) }
+    fn mutate_proof(kind: &str, pf: &Pf<Self>, args: &[String]) -> Option<Pf<Self>> { mutate_lincode_proof(kind, pf, args) }
 }
 
 pub fn run(c: &Case, out: &mut Out) {
